@@ -314,10 +314,27 @@ def rule_args(ctx):
             n += 1
             bad = []
             rebound = set()
+            # a local that names a parameter, or something reached through a parameter's attributes (func.__annotations__), is the
+            # caller's object too - unless the name is also bound to anything else
+            binds = {}
+            for x in walk_local(f.node):
+                if isinstance(x, ast.Assign) and len(x.targets) == 1 and isinstance(x.targets[0], ast.Name):
+                    binds.setdefault(x.targets[0].id, []).append(x.value)
+            aliases = set()
+            for nm, vals in binds.items():
+                if nm in params:
+                    continue
+                def rooted(e):
+                    while isinstance(e, ast.Attribute):
+                        e = e.value
+                    return isinstance(e, ast.Name) and e.id in params
+                if vals and all(isinstance(v, (ast.Name, ast.Attribute)) and rooted(v) for v in vals):
+                    aliases.add(nm)
+            params = params | aliases
             for x in walk_local_ordered(f.node):
                 if isinstance(x, ast.Assign):
                     for t in x.targets:
-                        if isinstance(t, ast.Name) and t.id in params:
+                        if isinstance(t, ast.Name) and t.id in params and t.id not in aliases:
                             rebound.add(t.id)       # from here on the name is a local object (conservatively: any later write is to the copy)
                         if isinstance(t, ast.Subscript) and isinstance(t.value, ast.Name) and t.value.id in params - rebound:
                             bad.append(norm(x))
@@ -342,19 +359,25 @@ def rule_args(ctx):
 def rule_file(ctx):
     ctx.rule('C20.ctx', 'a definition is serialized before a file is opened for it: inside `with open(..., "wb"/"xb")` nothing that can fail '
                         'for a bad definition runs (the serializer raising would leave a truncated file behind)')
-    f = ctx.repo.func('sc3.synth.synthdef:SynthDef._write_def_file')
-    withs = [w for w in walk_local(f.node) if isinstance(w, ast.With) and any(
-        isinstance(i.context_expr, ast.Call) and norm(i.context_expr.func) == 'open' for i in w.items)]
-    ctx.require(len(withs) >= 1, 'C20.ctx', '_write_def_file: no file is opened (anchor vanished)')
-    bad = []
-    for w in withs:
-        for c in U.calls(ast.Module(body=w.body, type_ignores=[])):
-            mn = U.method_name(c) or U.call_name(c) or ''
-            if mn.startswith('_write_def') or mn in ('as_bytes',):
-                bad.append(norm(c)[:60])
-    ctx.ob('C20.ctx', f'{f.fq}:serialize-before-open', not bad,
-           f'{bad} runs while the target file is already open for writing: a definition that cannot be written (duplicated control name, '
-           f'too many controls) truncates an existing file', f.node, f.module)
+    m = ctx.repo.module('sc3.synth.synthdef')
+    n = 0
+    for q, f in sorted(m.functions.items()):
+        withs = [w for w in walk_local(f.node) if isinstance(w, ast.With) and any(
+            isinstance(i.context_expr, ast.Call) and norm(i.context_expr.func) == 'open' and
+            any(U.literal(a) in ('wb', 'xb', 'w', 'x') or norm(a) == 'mode' for a in i.context_expr.args[1:2]) for i in w.items)]
+        if not withs:
+            continue
+        n += 1
+        bad = []
+        for w in withs:
+            for c in U.calls(ast.Module(body=w.body, type_ignores=[])):
+                mn = U.method_name(c) or U.call_name(c) or ''
+                if mn.startswith('_write_def') or mn in ('as_bytes',):
+                    bad.append(norm(c)[:60])
+        ctx.ob('C20.ctx', f'{f.fq}:serialize-before-open', not bad,
+               f'{bad} runs while the target file is already open for writing: a definition that cannot be written (duplicated control name, '
+               f'too many controls) truncates an existing file', f.node, f.module)
+    ctx.require(n >= 2, 'C20.ctx', f'only {n} functions that open a definition file for writing found')
 
 
 def run(ctx):
@@ -371,6 +394,11 @@ def run(ctx):
 
 
 MUTANTS = [
+    dict(rule='C20.ctx', name='store serializes into the open file (fix reverted)', file='sc3/synth/synthdef.py',
+         old="            data = self.as_bytes()  # Before the file is truncated.\n            with open(path, 'wb') as file:\n                file.write(data)\n",
+         new="            with open(path, 'wb') as file:\n                self._write_def_list([self], file)\n"),
+    dict(rule='C20.own', name='rate overrides written into the live annotations of the user function (seed C20-g)', file='sc3/synth/synthdef.py',
+         old="        rate_names = self._RATE_NAMES\n", new="        rate_names = self._RATE_NAMES\n        live = func.__annotations__\n        for i_, name_ in enumerate(names):\n            if rates[i_] in rate_names:\n                live[name_] = rates[i_]\n"),
     dict(rule='C20.ctx', name='definition serialized into the open file (fix reverted)', file='sc3/synth/synthdef.py',
          old="        data = self.as_bytes()\n        try:\n            # Should write if file doesn't exists or overwrite is True.\n            with open(path, mode) as file:\n                file.write(data)\n",
          new="        try:\n            # Should write if file doesn't exists or overwrite is True.\n            with open(path, mode) as file:\n                self._write_def_list([self], file)\n"),
